@@ -120,7 +120,7 @@ func cutAt(data string, cuts []int) []string {
 }
 
 func runDgram(in input) hlib.Case {
-	dg := lexgen.FromInts(in.Data)
+	dg := in.Data.str()
 	msgs := cutAt(dg, in.Cuts)
 	c := hlib.Case{Input: in}
 	h := &countingHandler{}
@@ -132,7 +132,7 @@ func runDgram(in input) hlib.Case {
 	if in.LogBad {
 		limit = rate.Inf
 	}
-	dp := statsd.NewDatagramParser(ch, in.NS, false, 0, h, limit, false, logger)
+	dp := statsd.NewDatagramParser(ch, in.NS, in.IgnoreHost, 0, h, limit, false, logger)
 	ctx, cancel := context.WithCancel(stats.NewContext(context.Background(), st))
 	defer cancel()
 	panicked := make(chan string, 2)
